@@ -373,6 +373,49 @@ func deepOracles(run *vh.Run, g *HGen) [][2]string {
 		}
 	}
 
+	// ---- the keyword gate of db.query (sqlcheck.c): mirror of SqlGate.firstOK / pragmasOK
+	firstOK, pragmasOK := true, true
+	for _, r := range g.C.SQLReadonlyFirst {
+		run.Eval("sqlgate "+r[0]+" "+r[1], true)
+		if r[1] == "pragma" {
+			if r[0] != "PRAGMA" {
+				firstOK = false
+			}
+			continue
+		}
+		for _, w := range sqlWriteCapable {
+			if sqlAdmits(r, w) {
+				firstOK = false
+				ex := map[string]string{"WITH": "with t(k, v) as (select 'x', 1) insert into ledger select k, v from t", "PRAGMA": "pragma user_version = 1"}[w]
+				if ex == "" {
+					ex = strings.ToLower(w) + " …"
+				}
+				run.Fail(fmt.Sprintf("sqlcheck_is_readonly_sql answers read-only for statements whose leading keyword is %s (rule %s %s), a keyword that can begin a writing statement, e.g. %q; db.query has no other gate and may be called from view functions",
+					w, r[0], r[1], ex),
+					map[string]interface{}{"rule": r, "write_capable_keyword": w, "example": ex,
+						"how": "a view function called by a transaction runs `db.query(<statement>)` and `rs:next()` on the writable SQL connection"})
+			}
+		}
+	}
+	for _, r := range g.C.SQLReadonlyPragmas {
+		for _, w := range sqlSettablePragmas {
+			if sqlAdmits(r, w) {
+				pragmasOK = false
+				run.Fail(fmt.Sprintf("sqlcheck_is_permitted_pragma admits PRAGMA %s (rule %s %s), a pragma that sets something", w, r[0], r[1]),
+					map[string]interface{}{"rule": r, "pragma": w})
+			}
+		}
+	}
+	hasGate := false
+	for _, r := range g.C.PrepareGates {
+		if r[0] == "db_lib.query" && strings.Contains(r[1], "sqlcheck_is_readonly_sql") {
+			hasGate = true
+		}
+	}
+	if !hasGate {
+		run.Fail("db.query (db_query in db_module.c) no longer calls sqlcheck_is_readonly_sql before sqlite3_prepare", map[string]interface{}{"gates": g.C.PrepareGates})
+	}
+
 	ro := append([]string(nil), fx.RoCallees...)
 	sort.Strings(ro)
 	var opens []string
@@ -393,6 +436,8 @@ func deepOracles(run *vh.Run, g *HGen) [][2]string {
 		{"flagForeign", pairs(fx.FlagForeign)}, {"ctxArgs", triples(fx.CtxArgs)}, {"isViewWrites", pairs(fx.IsViewWrites)},
 		{"sqlOpens", strings.Join(opens, " ")}, {"sqlExecs", triples(fx.SQLExecs)}, {"ifaceImpls", triples(fx.IfaceImpls)},
 		{"flagBranches", triples(fx.FlagBranches)}, {"roCallees", strings.Join(ro, " ")}, {"checkViewRet", strings.Join(cvr, " ")},
+		{"sqlReadonly", pairs(g.C.SQLReadonlyFirst) + " | " + pairs(g.C.SQLReadonlyPragmas)}, {"sqlGateOK", fmt.Sprintf("%v %v", firstOK, pragmasOK)},
+		{"cPrepareGates", pairs(g.C.PrepareGates)},
 		{"refuseExempt", strings.Join(ex, " ")}, {"cErrChecks", strings.Join(errChecks, " ")}, {"refuseOK", fmt.Sprint(refuseOK)}, {"viewBracket", viewBracket}, {"isViewSet", isViewSet},
 	}
 }
@@ -422,4 +467,29 @@ func triples(rows [][3]string) string {
 		out = append(out, strings.ReplaceAll(r[0], " ", "_")+"="+strings.ReplaceAll(r[1], " ", "_")+"="+strings.ReplaceAll(r[2], " ", "_"))
 	}
 	return strings.Join(out, " ")
+}
+
+// mirrors of SqlGate.writeCapable / settablePragmas / admits (Model.HostApi); the verdicts are compared in the trace
+var sqlWriteCapable = []string{"ALTER", "ANALYZE", "ATTACH", "BEGIN", "COMMIT", "CREATE", "DELETE", "DETACH", "DROP", "END", "INSERT",
+	"REINDEX", "RELEASE", "REPLACE", "ROLLBACK", "SAVEPOINT", "UPDATE", "VACUUM", "WITH", "PRAGMA"}
+
+var sqlSettablePragmas = []string{"ANALYSIS_LIMIT", "APPLICATION_ID", "AUTO_VACUUM", "AUTOMATIC_INDEX", "BUSY_TIMEOUT", "CACHE_SIZE", "CACHE_SPILL",
+	"CASE_SENSITIVE_LIKE", "CELL_SIZE_CHECK", "CHECKPOINT_FULLFSYNC", "COUNT_CHANGES", "DATA_STORE_DIRECTORY",
+	"DEFAULT_CACHE_SIZE", "DEFER_FOREIGN_KEYS", "EMPTY_RESULT_CALLBACKS", "ENCODING", "FOREIGN_KEYS", "FULL_COLUMN_NAMES",
+	"FULLFSYNC", "HARD_HEAP_LIMIT", "IGNORE_CHECK_CONSTRAINTS", "INCREMENTAL_VACUUM", "JOURNAL_MODE", "JOURNAL_SIZE_LIMIT",
+	"LEGACY_ALTER_TABLE", "LEGACY_FILE_FORMAT", "LOCKING_MODE", "MAX_PAGE_COUNT", "MMAP_SIZE", "OPTIMIZE", "PAGE_SIZE",
+	"PARSER_TRACE", "QUERY_ONLY", "READ_UNCOMMITTED", "RECURSIVE_TRIGGERS", "REVERSE_UNORDERED_SELECTS", "SCHEMA_VERSION",
+	"SECURE_DELETE", "SHORT_COLUMN_NAMES", "SHRINK_MEMORY", "SOFT_HEAP_LIMIT", "SYNCHRONOUS", "TEMP_STORE",
+	"TEMP_STORE_DIRECTORY", "THREADS", "TRUSTED_SCHEMA", "USER_VERSION", "VDBE_ADDOPTRACE", "VDBE_DEBUG", "VDBE_LISTING",
+	"VDBE_TRACE", "WAL_AUTOCHECKPOINT", "WAL_CHECKPOINT", "WRITABLE_SCHEMA",
+	"BRANCH", "BRANCH_TRUNCATE", "BRANCH_LOG", "NEW_BRANCH", "DEL_BRANCH", "RENAME_BRANCH", "BRANCH_MERGE"}
+
+func sqlAdmits(rule [2]string, kw string) bool {
+	switch rule[1] {
+	case "prefix":
+		return strings.HasPrefix(kw, rule[0])
+	case "exact":
+		return kw == rule[0]
+	}
+	return true
 }
